@@ -144,10 +144,7 @@ func m_strings_ToLower(s string) string {
 		if c >= 0x80 {
 			vUnsupported("strings.ToLower on non-ASCII")
 		}
-		if 'A' <= c && c <= 'Z' {
-			c += 'a' - 'A'
-		}
-		b[i] = c
+		b[i] = vLowerByte(c)
 	}
 	return string(b)
 }
@@ -159,10 +156,7 @@ func m_strings_ToUpper(s string) string {
 		if c >= 0x80 {
 			vUnsupported("strings.ToUpper on non-ASCII")
 		}
-		if 'a' <= c && c <= 'z' {
-			c -= 'a' - 'A'
-		}
-		b[i] = c
+		b[i] = vUpperByte(c)
 	}
 	return string(b)
 }
@@ -326,4 +320,19 @@ func m_bytes_Cut(s, sep []byte) (before, after []byte, found bool) {
 		return s[:i], s[i+len(sep):], true
 	}
 	return s, nil, false
+}
+
+// strconv.commonPrefixLenIgnoreCase, with the case fold as a term instead of a branch
+// (the real function forks on the case of every byte: 2^8 paths for "infinity").
+func m_strconv_commonPrefixLenIgnoreCase(s, prefix string) int {
+	n := len(prefix)
+	if n > len(s) {
+		n = len(s)
+	}
+	for i := 0; i < n; i++ {
+		if vLowerByte(s[i]) != prefix[i] {
+			return i
+		}
+	}
+	return n
 }
